@@ -62,21 +62,29 @@ CloseRoll(tr) ==
             \cup (IF n \in SetOf(tr.closed[d]) THEN {} ELSE {<<"C20.perm_closed", d, n>>})
             \cup (IF n \notin SetOf(tr.selected[d]) THEN {} ELSE {<<"C20.reselected", d, n>>})
        ELSE {})
-      \* roll: on the first run date at or after rd[n] the position moves into the target
+      \* roll: on the first run date at or after rd[n] the security is remembered as rolled
       \cup (IF tr.rd[n] # 0 /\ d >= tr.rd[n] /\ tr.ran[d]
-            THEN (IF IsZero(tr.pos[d][n]) THEN {} ELSE {<<"C20.rolled_position", d, n>>})
-                 \cup (IF n \in SetOf(tr.rolled[d]) THEN {} ELSE {<<"C20.perm_rolled", d, n>>})
+            THEN (IF n \in SetOf(tr.rolled[d]) THEN {} ELSE {<<"C20.perm_rolled", d, n>>})
             ELSE {})
       : n \in {n \in 1..tr.N : IsSec(tr, n)} } : d \in 1..tr.T }
-  \* the target received factor x old position exactly once: its position on every run
-  \* date equals its own trades plus the rolled-in quantities so far
+  \* positions under rolling, chains included (A rolls into B, B into X): a security rolls
+  \* out what it held before the call - its own trades plus what was rolled into it on
+  \* earlier dates; what is rolled into it in the same call or later stays in it
   \cup UNION { UNION {
-      IF ~tr.ran[d] \/ ~IsSec(tr, n) THEN {} ELSE
-      LET inflow == RSumSeq([k \in 1..tr.N |->
-                      IF IsSec(tr, k) /\ tr.rd[k] # 0 /\ tr.rt[k] = n /\ tr.rolledat[k] # 0 /\ tr.rolledat[k] <= d
-                      THEN RMul(tr.rf[k], tr.posbefore[k]) ELSE Zero])
-      IN  IF tr.rd[n] # 0 \/ tr.cd[n] # 0 THEN {}
-          ELSE IF NearE(tr.pos[d][n], RAdd(tr.own[d][n], inflow)) THEN {} ELSE {<<"C20.roll_target", d, n>>}
+      IF ~tr.ran[d] \/ ~IsSec(tr, n) \/ tr.cd[n] # 0 THEN {} ELSE
+      LET Rolls(k) == IsSec(tr, k) /\ tr.rd[k] # 0 /\ tr.rolledat[k] # 0
+          RECURSIVE Before(_)
+          Before(k) == RAdd(tr.posbefore[k],
+                            RSumSeq([j \in 1..tr.N |->
+                               IF Rolls(j) /\ tr.rt[j] = k /\ tr.rolledat[j] < tr.rolledat[k]
+                               THEN RMul(tr.rf[j], Before(j)) ELSE Zero]))
+          gone   == Rolls(n) /\ tr.rolledat[n] <= d
+          inflow == RSumSeq([k \in 1..tr.N |->
+                      IF Rolls(k) /\ tr.rt[k] = n /\ tr.rolledat[k] <= d /\ (~gone \/ tr.rolledat[k] >= tr.rolledat[n])
+                      THEN RMul(tr.rf[k], Before(k)) ELSE Zero])
+          expect == RAdd(IF gone THEN Zero ELSE tr.own[d][n], inflow)
+      IN  IF NearE(tr.pos[d][n], expect) THEN {}
+          ELSE {<<IF Rolls(n) /\ tr.rolledat[n] <= d THEN "C20.rolled_position" ELSE "C20.roll_target", d, n>>}
       : n \in 1..tr.N } : d \in 1..tr.T }
 
 Judge(tr) ==
